@@ -571,13 +571,13 @@ func init() {
 	Register(Spec[c15Case]{
 		ID: "C15", Suite: "engine", CoqImports: imports,
 		CoqType: "list codec_in * list codec_in * bool * list Check.C15.desc_in * list N", CoqRun: "Check.C15.run",
-		Quick: 1500, Thorough: 25000, Parallel: 8,
+		Quick: 1500, Thorough: 14000, Parallel: 8,
 		Corpus: c15Corpus, Gen: c15Gen, Run: c15Run, Coq: c15Coq, Shrink: c15Shrink,
 	})
 	Register(Spec[c15Fuzzy]{
 		ID: "C15", Suite: "fuzzy", CoqImports: imports,
 		CoqType: "codec_in * list codec_in", CoqRun: "Check.C15.run_fuzzy",
-		Quick: 1200, Thorough: 25000, Parallel: 8,
+		Quick: 1200, Thorough: 14000, Parallel: 8,
 		Gen: func(r *Rand, _ int) c15Fuzzy {
 			kind := Pick(r, []string{"video", "video", "audio"})
 			hay := genLocalTable(r, kind, 4)
